@@ -5,5 +5,7 @@ def run(tier, seed):
     res, _, _ = run_server_property(
         "C15", ["C15.ok"], tier, seed,
         nontrivial=lambda c, e, o: any(x[0] == "timer" for x in e),
-        rule="non-trivial = distinct schedule containing a timer expiry")
+        rule="non-trivial = distinct schedule containing a timer expiry | plus the PyOpenSSL handshake phase: stall after 0, 1, 2 client flights and after completion")
+    import tlsextra
+    tlsextra.handshake_timer_cases(res)
     return res
